@@ -6,7 +6,7 @@
    with `_refuted` witnesses: open finding D51 (YBR_FULL stored unconverted,
    converted to RGB on decoding). *)
 From Coq Require Import String ZArith List Bool.
-From HD Require Import Base.Val C07_Model C07_Proofs C07_Proofs_Table C07_Proofs_RLE C07_Proofs_Ext.
+From HD Require Import Base.Val C07_Model C07_Proofs C07_Proofs_Table C07_Proofs_RLE C07_Proofs_Ext C07_Proofs_Full C07_Proofs_Accept C07_Proofs_AcceptRLE.
 Import ListNotations.
 Open Scope Z_scope.
 
@@ -183,16 +183,22 @@ Proof. exact rle_segment_roundtrip. Qed.
 Print Assumptions C07_rle_segment_roundtrip.
 
 (* FULL statement: the same without [open_gap p = false]; false for the current
-   code (witness below: D51, YBR_FULL stored unconverted, converted on decoding). *)
+   code (witness below: D51, YBR_FULL stored unconverted, converted on decoding).
+   No codec premise and no range precondition: content outside Bits Stored is
+   refused by the encoder's own validation (C07_rle_accepts_values_fit). *)
 Theorem C07_rle_roundtrip_partial : forall p f bs,
   p_ts p = TRLE ->
   encode_rle default_tables p f = Ok bs ->
   open_gap p = false ->
   Z.of_nat (length f) = npix p ->
-  values_fit p f ->
   decode_rle p bs = Ok (DArr (out_shape p) f).
-Proof. exact rle_roundtrip. Qed.
+Proof. exact rle_roundtrip_full. Qed.
 Print Assumptions C07_rle_roundtrip_partial.
+
+Theorem C07_rle_accepts_values_fit : forall p f bs,
+  p_ts p = TRLE -> encode_rle default_tables p f = Ok bs -> values_fit p f.
+Proof. exact rle_accepts_values_fit. Qed.
+Print Assumptions C07_rle_accepts_values_fit.
 
 Theorem C07_rle_roundtrip_refuted_ybr : exists p f bs,
   p_ts p = TRLE /\ encode_rle default_tables p f = Ok bs /\ Z.of_nat (length f) = npix p
@@ -289,9 +295,9 @@ Theorem C07_lossless_roundtrip_partial :
     lossless_ts p ->
     encode_any codec_encode default_tables p f = Ok bs ->
     open_gap p = false ->
-    Z.of_nat (length f) = npix p -> values_fit p f -> p_dsize p <= 8 ->
+    Z.of_nat (length f) = npix p -> (p_ts p <> TRLE -> values_fit p f) -> p_dsize p <= 8 ->
     decode_any codec_decode default_tables p bs = Ok (DArr (out_shape p) f).
-Proof. exact lossless_roundtrip. Qed.
+Proof. exact lossless_roundtrip_full. Qed.
 Print Assumptions C07_lossless_roundtrip_partial.
 
 Theorem C07_refusal_any :
@@ -317,3 +323,79 @@ Proof.
   unfold values_fit. repeat constructor; cbn; intuition discriminate.
 Qed.
 Print Assumptions C07_lossless_roundtrip_nonvacuous.
+
+(* --- the accept table for ALL parameter values ------------------------------------ *)
+(* every integer value of rows, columns, samples, bits allocated / stored, pixel
+   representation, planar configuration; every syntax, photometric interpretation,
+   dtype kind; item sizes of numpy's integer types.  FULL statement: without the
+   [open_gap] alternative (false: C07_accept_table_refuted_ybr, D51). *)
+Theorem C07_accept_sound_all_partial : forall p lo hi,
+  1 <= p_rows p -> 1 <= p_cols p -> In (p_dsize p) [1; 2; 4; 8] ->
+  accepts default_tables p lo hi = true ->
+  representable p = true \/ open_gap p = true.
+Proof. exact accept_sound_all. Qed.
+Print Assumptions C07_accept_sound_all_partial.
+
+(* as the property says it: what the chosen syntax cannot represent is refused *)
+Theorem C07_unrepresentable_refused_partial : forall p f,
+  1 <= p_rows p -> 1 <= p_cols p -> In (p_dsize p) [1; 2; 4; 8] ->
+  representable p = false -> open_gap p = false ->
+  exists e, encode_frame default_tables p f = Err e.
+Proof. exact unrepresentable_refused. Qed.
+Print Assumptions C07_unrepresentable_refused_partial.
+
+(* non-vacuity outside the finite matrix: 64-bit native words are accepted and
+   representable; 12 bits allocated for JPEG-LS and a 70000-column RLE
+   frame are not representable here / refused *)
+Example C07_accept_sound_all_nonvacuous :
+  let p := mkP TImplicit 2 2 false 0 64 40 (Some MONO2) 1 None KInt 8 in
+  let q := mkP TJLS 32 32 false 0 12 12 (Some MONO2) 0 None KUInt 2 in
+  let r := mkP TRLE 1 70000 false 0 8 8 (Some MONO2) 0 None KUInt 1 in
+  accepts default_tables p (-5) 5 = true /\ representable p = true
+  /\ representable q = false /\ open_gap q = false
+  /\ encode_frame default_tables q (repeat 0 1024) = Err EV
+  /\ accepts default_tables r 0 0 = false.
+Proof. cbv zeta. repeat split; vm_compute; reflexivity. Qed.
+Print Assumptions C07_accept_sound_all_nonvacuous.
+
+(* --- RLE Lossless: acceptance as one explicit conjunction (all parameter values) --- *)
+Theorem C07_rle_accepts_iff : forall p lo hi, p_ts p = TRLE ->
+  accepts default_tables p lo hi = rle_spec p lo hi.
+Proof. exact rle_accepts_iff. Qed.
+Print Assumptions C07_rle_accepts_iff.
+
+(* the guard of the D70 fix is necessary: without it the stream is undecodable *)
+Theorem C07_rle_guard_d70_necessary : exists p f bs,
+  check_pydicom default_tables p = None /\ check_profile default_tables p = None
+  /\ values_fit p f /\ rle_encode_frame p f = Ok bs /\ decode_rle p bs = Err ERT.
+Proof. exact rle_guard_d70_necessary. Qed.
+Print Assumptions C07_rle_guard_d70_necessary.
+
+(* --- decode_frame as an entry point (its own parameter validation included) ------- *)
+Theorem C07_entry_native_roundtrip_partial : forall p f bs,
+  native_ts p ->
+  encode_frame default_tables p f = Ok bs ->
+  Z.of_nat (length f) = npix p -> p_dsize p <= 8 -> values_fit p f ->
+  (spp p = 3 -> p_balloc p <> 1 -> p_pi p <> Some YBR_FULL) ->
+  decode_frame_model p 0 bs = Ok (DArr (out_shape p) f).
+Proof. exact entry_native_roundtrip. Qed.
+Print Assumptions C07_entry_native_roundtrip_partial.
+
+Theorem C07_entry_rle_roundtrip_partial : forall p f bs,
+  p_ts p = TRLE ->
+  encode_rle default_tables p f = Ok bs ->
+  open_gap p = false -> Z.of_nat (length f) = npix p ->
+  decode_frame_model p 0 bs = Ok (DArr (out_shape p) f).
+Proof. exact entry_rle_roundtrip. Qed.
+Print Assumptions C07_entry_rle_roundtrip_partial.
+
+(* non-vacuity: the entry point does refuse and does re-order when the call differs *)
+Example C07_entry_nonvacuous :
+  let p := mkP TExplicit 1 2 true 3 8 8 (Some RGB) 0 (Some 0) KUInt 1 in
+  let q := mkP TExplicit 1 2 true 3 8 8 (Some RGB) 0 (Some 1) KUInt 1 in
+  let r := mkP TExplicit 1 2 true 3 8 8 (Some RGB) 2 (Some 0) KUInt 1 in
+  decode_frame_model p 0 [1; 2; 3; 4; 5; 6] = Ok (DArr [1; 2; 3] [1; 2; 3; 4; 5; 6])
+  /\ decode_frame_model q 0 [1; 2; 3; 4; 5; 6] = Ok (DArr [1; 2; 3] [1; 3; 5; 2; 4; 6])
+  /\ decode_frame_model r 0 [1; 2; 3; 4; 5; 6] = Err EV.
+Proof. cbv zeta. repeat split; vm_compute; reflexivity. Qed.
+Print Assumptions C07_entry_nonvacuous.
